@@ -3,6 +3,7 @@
    implementation returned.  Only failing indices and the largest scaled
    deviation leave Coq. *)
 From Coq Require Import List ZArith Bool PrimFloat.
+From PyStoG Require Import WindowM.
 From PyStoG Require Import Num NumF ConverterM.
 Import ListNotations.
 
@@ -170,15 +171,18 @@ Definition chk_named (c : rawcase) : float :=
   let xin := lnth (fl c) 0 in let yin := lnth (fl c) 1 in let xout := lnth (fl c) 3 in
   let dy := opt_dy (znth z 3) (lnth (fl c) 2) in
   let q2rdir := Z.eqb (znth z 0) 0 in
+  (* window keywords given to the named transform: zs[7], zs[8] presence, sc[3], sc[4] values (absent in older cases: none) *)
+  let wlo := if Z.eqb (znth z 7) 1 then Some (fnth (sc c) 3) else None in
+  let whi := if Z.eqb (znth z 8) 1 then Some (fnth (sc c) 4) else None in
   let '(xo, yo, eo) :=
-    if q2rdir then q2r (rfun_of (znth z 1)) (gfun_of (znth z 2)) xin yin xout dy k
-    else r2q (gfun_of (znth z 1)) (rfun_of (znth z 2)) xin yin xout dy k in
+    if q2rdir then q2r_w wlo whi (rfun_of (znth z 1)) (gfun_of (znth z 2)) xin yin xout dy k
+    else r2q_w wlo whi (gfun_of (znth z 1)) (rfun_of (znth z 2)) xin yin xout dy k in
   (* scales *)
   let '(py, pe) :=
     if q2rdir then rconv (rfun_of (znth z 1)) rF xin yin dy k
     else gconv (gfun_of (znth z 1)) gG xin yin dy k in
-  let '(_, T, E) := fourier_transform xin py xout None None (Some pe) k in
-  let '(sv, se) := ft_scales xin py xout None None (Some pe) k in
+  let '(_, T, E) := fourier_transform xin py xout wlo whi (Some pe) k in
+  let '(sv, se) := ft_scales xin py xout wlo whi (Some pe) k in
   let c0 := if q2rdir then two_over_pi else 1%float in
   let T := vscale_r c0 T in
   let T2 := vadd T (vscale_r c0 sv) in
